@@ -194,6 +194,14 @@ func runHlsl(mod *ir.Module, cfg map[string]any) any {
 			o.SamplerBufferBindingMap[uint32(t[0])] = hlsl.BindTarget{Space: uint8(t[1]), Register: uint32(t[2])}
 		}
 	}
+	if fe, ok := cfg["fragment_ep"].(string); ok && fe != "" {
+		// Options.FragmentEntryPoint: vertex outputs the named fragment entry point does not consume are stripped
+		for i := range mod.EntryPoints {
+			if mod.EntryPoints[i].Name == fe {
+				o.FragmentEntryPoint = &hlsl.FragmentEntryPoint{Module: mod, Function: &mod.EntryPoints[i].Function}
+			}
+		}
+	}
 	s, info, err := hlsl.Compile(mod, o)
 	if err != nil {
 		return map[string]any{"err": err.Error()}
